@@ -39,22 +39,25 @@ def geometry(cfg):
     roi = cfg["roi"]
     dz = (8 if max(roi) == 4 else 2) * S * S / lam
     sim = tp.simulate(gpts=cfg["gpts"], roi=roi, num_slices=cfg["ns"], num_probe_modes=1, slice_thickness=dz,
-                      sampling=S, step_px=cfg["step"], seed=1)
-    pos = np.rint(sim["positions_px"]).astype(int)
-    if not np.allclose(pos, sim["positions_px"]):
-        raise MachineryError("non-integer scan positions in the chosen geometry")
-    return sim, pos, dz
+                      sampling=S, step_px=cfg["step"], seed=1, allow_edge=bool(cfg.get("edge")),
+                      allow_half=bool(cfg.get("half")))
+    pos2 = np.rint(2 * sim["positions_px"]).astype(int)          # positions in half pixels
+    if not np.allclose(pos2, 2 * sim["positions_px"]):
+        raise MachineryError("scan positions are not multiples of half a pixel in the chosen geometry")
+    return sim, pos2, dz
 
 
-def run_model(tmp, cfg, sim, pos, idx):
+def run_model(tmp, cfg, sim, pos2, idx):
     ny, nx = sim["obj"].shape[-2:]
     mod = f"Zi{idx}"
+    half = bool((pos2 % 2).any())
     shutil.copy(os.path.join(SPEC, "FwdModelZi.tla"), os.path.join(tmp, "FwdModelZi.tla"))
     with open(os.path.join(tmp, f"{mod}.tla"), "w") as f:
         f.write(f"---- MODULE {mod} ----\nEXTENDS FwdModelZi\nPosDef == <<" +
-                ", ".join(f"<<{int(r)}, {int(c)}>>" for r, c in pos) + ">>\n====\n")
+                ", ".join(f"<<{int(r)}, {int(c)}>>" for r, c in pos2) + ">>\n====\n")
     base = (f"SPECIFICATION Spec\nCONSTANTS RY = {cfg['roi'][0]}\n RX = {cfg['roi'][1]}\n NY = {ny}\n NX = {nx}\n"
-            f" NS = {cfg['ns']}\n NM = {cfg['nm']}\n Pos <- PosDef\n PropR = 1\n PropC = 1\n TwiddleBug = FALSE\n")
+            f" NS = {cfg['ns']}\n NM = {cfg['nm']}\n Pos <- PosDef\n Half = {'TRUE' if half else 'FALSE'}\n"
+            f" PropR = 1\n PropC = 1\n TwiddleBug = FALSE\n")
     with open(os.path.join(tmp, f"{mod}_mc.cfg"), "w") as f:
         f.write(base + "INVARIANT IntensityConserved\nINVARIANT WaveEnergy\nINVARIANT Orthogonal\nINVARIANT Emit\n")
     return tlc.run_tlc(mod, f"{mod}_mc.cfg", spec_dir=tmp, workers=1, timeout=1500)
@@ -75,7 +78,7 @@ def make_sim(sim0, case, q, inten):
 
 def run_group(arg):
     """One parameter choice: the unperturbed case and its perturbed variants."""
-    sim0, group, idx, quick = arg
+    sim0, group, idx, quick, edge = arg
     warnings.filterwarnings("ignore")
     from harness.common import tiny_ptycho as tp
     out = []
@@ -90,19 +93,23 @@ def run_group(arg):
             for ti, ot in enumerate(types if not quick else types[idx % 3: idx % 3 + 1]):
                 for pad in ((0, 0), (4, 8)) if (not quick or idx % 2) else ((0, 0),):
                     sim = make_sim(sim0, base, base["q"], base["inten"])
-                    p = tp.build(sim, obj_type=ot, obj_padding_px=pad)
+                    if edge and pad != (0, 0):
+                        continue
+                    p = tp.build(sim, obj_type=ot, obj_padding_px=pad, check=not edge)
                     at_truth = {}
                     for lt in LOSSES:
                         for bsz in (None, 1, 2, n - 1 if n > 2 else 1):
                             v = tp.forward_loss(p, lt, bsz)
                             at_truth[lt] = max(at_truth.get(lt, 0.0), abs(v))
                             if not np.isfinite(v) or abs(v) > ZERO_TOL[lt]:
-                                out.append((f"C02:loss-at-truth:{lt}", f"{tag} {ot} pad={pad}: batch {bsz}: loss {v:.3g} at the "
-                                            "ground truth of the exact Gaussian-integer data"))
+                                out.append((f"C02:loss-at-truth:{'edge-position' if edge else lt}", f"{tag} {ot} pad={pad}: batch {bsz}: loss {v:.3g} at the "
+                                            "ground truth of the exact Gaussian-integer data" + (" (a scan position equals the object size)" if edge else "")))
                                 break
                         else:
                             continue
                         break
+                    if edge:
+                        continue
                     # perturbed object against the unperturbed data: strictly larger loss
                     for pc in perts[: (1 if quick else None)]:
                         if pc["inten"] == base["inten"]:
@@ -111,7 +118,7 @@ def run_group(arg):
                         pp = tp.build(simp, obj_type=ot, obj_padding_px=pad)
                         for lt in LOSSES:
                             v = tp.forward_loss(pp, lt, None)
-                            if not (v > max(1e-2, 100 * at_truth.get(lt, 0.0))):
+                            if not (v > max(10 * ZERO_TOL[lt], 100 * at_truth.get(lt, 0.0))):
                                 out.append((f"C02:perturbed-not-larger:{lt}", f"{tag} {ot} pad={pad}: loss {v:.3g} at the perturbed "
                                             f"object (pixel {pc['pert']}) is not larger than at the truth ({at_truth[lt]:.3g})"))
                                 break
@@ -122,7 +129,7 @@ def run_group(arg):
                         simq = make_sim(sim0, pc, base["q"], base["inten"])      # perturbed probe, unperturbed data
                         pq = tp.build(simq, obj_type=ot, obj_padding_px=pad)
                         v = tp.forward_loss(pq, "l2_amplitude", None)
-                        if not (v > max(1e-2, 100 * at_truth.get("l2_amplitude", 0.0))):
+                        if not (v > max(10 * ZERO_TOL["l2_amplitude"], 100 * at_truth.get("l2_amplitude", 0.0))):
                             out.append(("C02:perturbed-probe-not-larger", f"{tag} {ot} pad={pad}: loss {v:.3g} at a perturbed probe"))
     except Exception as ex:  # noqa: BLE001
         out.append(("C02:raised", f"{tag}: {type(ex).__name__}: {str(ex)[:200]}"))
@@ -132,12 +139,15 @@ def run_group(arg):
 def check(rep, tier, seed):
     quick = tier == "quick"
     rep.assume("exact sub-domain: ROI 2x2 / 4x4, quarter-turn phases, Gaussian-integer probes, integer positions, "
-               "quarter-wave slices; fractional positions, odd/non-square ROIs and generic phases are NOT reached by "
-               "this check", "descan correction disabled (no_shift)", "probe modes are orthogonal with descending "
+               "quarter-wave slices, half-pixel positions on the 2x2 ROI; other fractional positions, odd/non-square "
+               "ROIs and generic phases are NOT reached by this check", "descan correction disabled (no_shift)", "probe modes are orthogonal with descending "
                "intensity (checked on the model) so the library's orthogonalisation is a no-op",
-               "loss zero tolerances: l2 1e-7/1e-8, l1 1e-3/2e-4 (float32, eps under the square root); perturbed loss must exceed 1e-2")
+               "loss zero tolerances: l2 1e-7/1e-8, l1 1e-3/2e-4 (float32, eps under the square root); perturbed loss must exceed 10x the zero tolerance and 100x the loss at the truth")
     cfgs = [dict(roi=(4, 4), gpts=(2, 3), step=1, ns=1, nm=1), dict(roi=(4, 4), gpts=(4, 3), step=2, ns=2, nm=2),
-            dict(roi=(2, 2), gpts=(3, 3), step=1, ns=2, nm=1)]
+            dict(roi=(2, 2), gpts=(3, 3), step=1, ns=2, nm=1),
+            dict(roi=(2, 2), gpts=(3, 4), step=1.5, ns=1, nm=2, half=True),      # exact half-pixel positions
+            dict(roi=(2, 2), gpts=(3, 3), step=2.5, ns=2, nm=1, half=True),
+            dict(roi=(4, 4), gpts=(5, 3), step=2, ns=1, nm=1, edge=True)]          # last scan row at index N
     if not quick:
         cfgs += [dict(roi=(4, 4), gpts=(2, 3), step=1, ns=2, nm=1), dict(roi=(4, 4), gpts=(3, 4), step=2, ns=1, nm=2),
                  dict(roi=(2, 2), gpts=(4, 4), step=2, ns=1, nm=2), dict(roi=(4, 4), gpts=(3, 3), step=1, ns=3, nm=1)]
@@ -157,13 +167,13 @@ def check(rep, tier, seed):
             for c in r.cases:
                 groups.setdefault(json.dumps(c["par"], sort_keys=True), []).append(c)
             keys = sorted(groups)
-            if quick:
+            if quick or cfg.get("edge"):
                 random.Random(seed + i).shuffle(keys)
-                keys = keys[:5]
+                keys = keys[: (2 if cfg.get("edge") else 5)]
             for k in keys:
                 if not any(not c["pert"]["on"] and not c["pert"]["probe"] for c in groups[k]):
                     raise MachineryError("group without an unperturbed case")
-                jobs.append((sim0, groups[k], len(jobs), quick))
+                jobs.append((sim0, groups[k], len(jobs), quick, bool(cfg.get("edge"))))
     finally:
         shutil.rmtree(tmp, ignore_errors=True)
     if not jobs:
